@@ -60,26 +60,73 @@ def encode3Go : Int → Int → List (Int × Int) → Except EncErr Bytes
 
 def encode3 (first : Int) (m : List (Int × Int)) : Except EncErr Bytes := encode3Go 0 first m
 
-/-- emit (0,127) while d ≥ 127 -/
-def split127 : Nat → Int → Bytes
-  | 0, _ => []
-  | fuel + 1, d => if d ≥ 127 then [0, 127] ++ split127 fuel (d - 127) else []
 
-/-- Code310 -/
-def encode310Go : Int → Int → List (Int × Int) → Except EncErr Bytes
+/-- Code3 / Code38 for Python 3.6–3.9, where the line increment is a SIGNED byte:
+    `while line_diff > 127: emit (od, 127); od = 0; line_diff -= 127` -/
+def splitPos : Nat → Nat → Int → Bytes × Nat × Int
+  | 0, od, ld => ([], od, ld)
+  | fuel + 1, od, ld =>
+    if ld > 127 then let (bs, o, l) := splitPos fuel 0 (ld - 127); ([od, 127] ++ bs, o, l) else ([], od, ld)
+
+/-- `while line_diff < -128: emit (od, 0x80); od = 0; line_diff += 128` -/
+def splitNeg : Nat → Nat → Int → Bytes × Nat × Int
+  | 0, od, ld => ([], od, ld)
+  | fuel + 1, od, ld =>
+    if ld < -128 then let (bs, o, l) := splitNeg fuel 0 (ld + 128); ([od, 128] ++ bs, o, l) else ([], od, ld)
+
+def encode36Go : Int → Int → List (Int × Int) → Except EncErr Bytes
   | _, _, [] => .ok []
   | prevOff, prevLine, (off, line) :: rest =>
-    let ld := line - prevLine
     let od := off - prevOff
-    let (c1, odN) : Bytes × Int := if od ≥ 256 then
-        let (c, r) := splitBig [255, 0] od.toNat od.toNat; (c, (r : Int)) else ([], od)
-    if odN < 0 then .error .valueError else
-    let main : Bytes := [odN.toNat, (ld % 256).toNat]
-    let c2 := split127 ld.toNat ld
-    if ld < -127 then .error .valueError                 -- bytearray([0, -127])
-    else do let tl ← encode310Go off line rest
-            pure (c1 ++ main ++ c2 ++ tl)
+    let ld := line - prevLine
+    if od < 0 then .error .valueError else                -- bytearray([negative, ..])
+    let (c1, od1) := splitBig [255, 0] od.toNat od.toNat
+    let (c2, od2, ld2) := splitPos ld.natAbs od1 ld
+    let (c3, od3, ld3) := splitNeg ld.natAbs od2 ld2
+    do let tl ← encode36Go off line rest
+       pure (c1 ++ c2 ++ c3 ++ [od3, (ld3 % 256).toNat] ++ tl)
 
-def encode310 (first : Int) (m : List (Int × Int)) : Except EncErr Bytes := encode310Go 0 first m
+def encode36 (first : Int) (m : List (Int × Int)) : Except EncErr Bytes := encode36Go 0 first m
+
+/-! ### Code310 (PEP 626 line table): each pair is (length of a range in bytes, signed line delta);
+    the delta is applied before the range; a mapping entry (offset, line) starts a range that ends at
+    the next entry's offset, the last one at the end of the code -/
+
+/-- `while ldelta > 127: emit (0, 127); ldelta -= 127` -/
+def split310Pos : Nat → Int → Bytes × Int
+  | 0, ld => ([], ld)
+  | fuel + 1, ld => if ld > 127 then let (bs, l) := split310Pos fuel (ld - 127); ([0, 127] ++ bs, l) else ([], ld)
+
+/-- `while ldelta < -127: emit (0, -127 & 0xFF); ldelta += 127` -/
+def split310Neg : Nat → Int → Bytes × Int
+  | 0, ld => ([], ld)
+  | fuel + 1, ld => if ld < -127 then let (bs, l) := split310Neg fuel (ld + 127); ([0, 129] ++ bs, l) else ([], ld)
+
+/-- `while sdelta > 254: emit (254, ldelta & 0xFF); ldelta = 0; sdelta -= 254` -/
+def split310Addr : Nat → Nat → Int → Bytes × Nat × Int
+  | 0, sd, ld => ([], sd, ld)
+  | fuel + 1, sd, ld =>
+    if sd > 254 then let (bs, s, l) := split310Addr fuel (sd - 254) 0; ([254, (ld % 256).toNat] ++ bs, s, l)
+    else ([], sd, ld)
+
+/-- where the range of an entry ends: at the next entry's offset, or at the end of the code -/
+def nextOff (codeLen : Int) : List (Int × Int) → Int
+  | (o2, _) :: _ => o2
+  | [] => codeLen
+
+def encode310Go (codeLen : Int) : Int → List (Int × Int) → Except EncErr Bytes
+  | _, [] => .ok []
+  | prevLine, (off, line) :: rest =>
+    let sd := nextOff codeLen rest - off
+    let ld := line - prevLine
+    if sd < 0 then .error .valueError else               -- bytearray([negative, ..])
+    let (c1, ld1) := split310Pos ld.natAbs ld
+    let (c2, ld2) := split310Neg ld.natAbs ld1
+    let (c3, sd3, ld3) := split310Addr sd.toNat sd.toNat ld2
+    do let tl ← encode310Go codeLen line rest
+       pure (c1 ++ c2 ++ c3 ++ [sd3, (ld3 % 256).toNat] ++ tl)
+
+def encode310 (first : Int) (codeLen : Int) (m : List (Int × Int)) : Except EncErr Bytes :=
+  encode310Go codeLen first m
 
 end XV.Model.LineEnc
